@@ -23,7 +23,12 @@ add("C01", "E2-worlds", "exploration",
     "Bound: model family F (one model per r0-signature class in quick, 4 in thorough), <=2 tuples (+1 leftover tuple invalid for the model), 2 users/2 groups/2 docs, one int condition. Trusted: the harness' reference semantics (h/ref), the memory datastore's write path. Planner choices are the server's own here; C02 forces them.",
     "bounded exhaustive enumeration of inputs executed on the implementation, oracle = independent reference model")
 
-NOT_BUILT = "check not built yet in this session; see DESIGN.md §5 for the planned decision procedure"
+add("C22", "E1-scheduler", "exploration",
+    "Every interleaving (scheduling choice at every sync/atomic/channel operation of the real, build-time instrumented queue code) of small producer/consumer/closer/canceller harnesses is executed: all schedules with <=1 preemption (<=2 in thorough) completely, then <=2 and unbounded with state-key pruning as far as the time budget allows; each execution is checked for deadlock/lost wake-up, loss/duplication and linearizability to a FIFO channel.",
+    "Bound: capacity 2, <=2 producers x <=3 items, <=2 consumers, optional closer/canceller/Grow thread. Trusted: the vrt scheduler's models of mutex/RWMutex/atomics/channels/select, tools/vgen's rewrite, race freedom of plain accesses (separate -race pass), fair-scheduling rule for spin loops. TryRecv=false is always accepted.",
+    "stateless model checking of the implementation: controlled cooperative scheduler, DFS over schedules with iterative preemption bounding and Mazurkiewicz-trace state keys; linearizability oracle")
+
+NOT_BUILT ="check not built yet in this session; see DESIGN.md §5 for the planned decision procedure"
 NA = {}
 
 def main():
